@@ -18,7 +18,9 @@
 
   Code as it is after the fix commits 55cd4d5 (`min_x(n_list, list)` no longer shadows `n`),
   0604f50 (`is_solved = false` in `min_x`), 8e8bcb2 (`min_x()` restores `V` only when saved) —
-  all three concern histories (C04), not the fresh-object answers modelled here.
+  these three concern histories (C04), not the fresh-object answers modelled here — and b39e70e
+  (`min_subset_x` refuses `s <= W_tol·‖V_k‖` instead of `s == 0`; `svdSolveBefore` is the code
+  before that commit).
 
   `svdSolveCert` is the same solver with the factors supplied from outside: the object of the
   certificate theorems (`C01_svd_cert`, `C03_svd_*`, `C20_svd_*`).
@@ -42,12 +44,13 @@ def svdSolveWith (fixed : Bool) : Solver K := fun p =>
   | .error e => .error e
   | .ok d => svdSolveCert fixed Svd.wTol d p
 
-/-- the code as it is: `min_subset_x` refuses only on an EXACT zero (finding: a subset that does
-    not resolve the defect is refused only if rounding happens to produce exactly 0) -/
-def svdSolve : Solver K := svdSolveWith false
+/-- the code as it is (since b39e70e): `min_subset_x` refuses a null column whose S-norm is
+    `<= W_tol·‖V_k‖` -/
+def svdSolve : Solver K := svdSolveWith true
 
-/-- with the proposed repair `s <= W_tol·‖V_k‖` (notes/proposed/C20-svd-min-subset-tolerance.diff);
-    once the fix is committed in /repo, `svdSolve` becomes this -/
-def svdSolveFixed : Solver K := svdSolveWith true
+/-- the code before b39e70e: `min_subset_x` refused only on an EXACT zero `s == 0`, so a subset
+    that does not resolve the defect was refused only when rounding happened to give exactly 0
+    (finding SVD-F1; witness corpus/C20/svd-nonresolving-subset.ops).  Kept for that witness. -/
+def svdSolveBefore : Solver K := svdSolveWith false
 
 end Gama.Ls
